@@ -1818,3 +1818,103 @@ pub fn gen_c17(rng: &mut Rng, d: &mut Dist, _idx: u64) -> Vec<String> {
     }
     out
 }
+
+/// C15: every API under stream scripts: writes accepting only part of the buffer, reads returning a few bytes at a
+/// time, end-of-stream / time-out (reply arrives late) / error at a random I/O call index; followed by further calls
+/// on the same client whose results must be their own.
+pub fn gen_c15(rng: &mut Rng, d: &mut Dist, _idx: u64) -> Vec<String> {
+    let cl = Cluster::random(rng, 3, false);
+    let mut out = cl.setup_lines();
+    for t in &cl.topics {
+        for p in 0..t.leaders.len() {
+            let e = rng.below(5) as i64;
+            out.push(format!("EARLIEST {} {} {}", h(&t.name), p, e));
+            out.push(format!("APPEND {} {} plain {} ~ aa {} ~ bb", h(&t.name), p, e, e + 1));
+            out.push(format!("HW {} {} {}", h(&t.name), p, e + 2 + rng.below(9) as i64));
+        }
+    }
+    out.push(format!("OP client_new {}", cl.bootstrap()));
+    out.push(format!("OP c set storage {}", rng.pick(&["zk", "kafka"])));
+    out.push("OP c set retry_backoff_ms 0".into());
+    out.push("OP c set retry_max 1".into());
+    out.push("OP c load_metadata_all".into());
+    let topics: Vec<String> = cl.topics.iter().map(|t| h(&t.name)).collect();
+    let call = |rng: &mut Rng, d: &mut Dist| -> String {
+        let t = rng.pick(&cl.topics);
+        let p = rng.below(t.leaders.len() as u64);
+        match rng.below(7) {
+            0 => {
+                bump(d, "api-offsets");
+                format!("OP c fetch_offsets {} {}", rng.pick(&[-1i64, -2]), topics.join(" "))
+            }
+            1 => {
+                bump(d, "api-list-offsets");
+                format!("OP c list_offsets {} {}", rng.pick(&[-1i64, -2]), topics.join(" "))
+            }
+            2 => {
+                bump(d, "api-fetch");
+                format!("OP c fetch_messages {} {} 0 -1", h(&t.name), p)
+            }
+            3 => {
+                bump(d, "api-produce-acks");
+                format!("OP c produce 1 1 0 {} {} ~ 7631", h(&t.name), p)
+            }
+            4 => {
+                bump(d, "api-produce-noack");
+                format!("OP c produce 0 1 0 {} {} ~ 7632", h(&t.name), p)
+            }
+            5 => {
+                bump(d, "api-commit");
+                format!("OP c commit_offsets {} {} {} 3", h("grp"), h(&t.name), p)
+            }
+            _ => {
+                bump(d, "api-group-fetch");
+                format!("OP c fetch_group_offsets {} {} {}", h("grp"), h(&t.name), p)
+            }
+        }
+    };
+    let rounds = 1 + rng.below(3);
+    for _ in 0..rounds {
+        // the stream script for the next call
+        match rng.below(7) {
+            0 => {
+                bump(d, "stream-short-writes");
+                let cs: Vec<String> = (0..(1 + rng.below(6))).map(|_| (1 + rng.below(40)).to_string()).collect();
+                out.push(format!("H write_chunks {}", cs.join(",")));
+            }
+            1 => {
+                bump(d, "stream-short-reads");
+                let cs: Vec<String> = (0..(1 + rng.below(8))).map(|_| (1 + rng.below(6)).to_string()).collect();
+                out.push(format!("H read_chunks {}", cs.join(",")));
+            }
+            2 => {
+                bump(d, "stream-write-error");
+                out.push(format!("H fail_send {}", rng.below(2)));
+            }
+            3 => {
+                bump(d, "stream-read-error");
+                out.push(format!("H fail_recv {}", rng.below(2)));
+            }
+            4 => {
+                bump(d, "stream-read-timeout-late-reply");
+                out.push(format!("H timeout_recv {}", rng.below(2)));
+            }
+            5 => {
+                bump(d, "stream-eof");
+                out.push(format!("H eof_read {}", rng.below(4)));
+                if rng.chance(1, 2) {
+                    out.push(format!("H read_chunks {}", (1 + rng.below(3)).to_string()));
+                }
+            }
+            _ => {
+                bump(d, "stream-normal");
+            }
+        }
+        out.push(call(rng, d));
+        out.push("H clear_faults".into());
+        // follow-up calls on the same client
+        out.push(call(rng, d));
+        out.push(call(rng, d));
+    }
+    out
+}
